@@ -19,7 +19,8 @@
 (*                           hc : TRUE when the hash stage runs first,     *)
 (*                           len, hlen]                                    *)
 (* Unit table     U[name] = [fam : "simple"|"hmac"|"phased"|"shamb", L, blk, *)
-(*                           pf : phase rule of a phased unit]             *)
+(*                           pf : phase rule of a phased unit]; for a      *)
+(*                  "simple" unit blk is the kernel granularity (1 or 4)   *)
 (***************************************************************************)
 EXTENDS Naturals, Sequences, FiniteSets
 
@@ -29,7 +30,7 @@ CONSTANTS LegacyCustomFlush,   \* TRUE: FLUSH_JOB_CUSTOM_* hands the job back ev
           Fuel,     \* bound on loop iterations (loops that exceed it are reported, see ok)
           LogStages \* keep the stage log (model checking) or not (trace replay)
 
-OS(n) == INSTANCE OooLanes WITH L <- n, MAXLEN <- 65535
+OS(n, r) == INSTANCE OooLanes WITH L <- n, MAXLEN <- 65535, R <- r
 OH(n, b) == INSTANCE OooHmac WITH L <- n, MAXLEN <- 65535, BLK <- b,
                                   PADMIN <- IF b = 128 THEN 17 ELSE 9, Track <- FALSE
 OP(n) == INSTANCE OooPhased WITH L <- n, MAXLEN <- 65535
@@ -38,24 +39,29 @@ NOJ == 0
 
 \* phase lengths of a job in a "phased" unit (U[un].pf names the rule); len in bytes
 CeilDiv(a, b) == (a + b - 1) \div b
-PhasesOf(pf, len) ==
-    CASE pf = "cmac" -> (IF len = 0 THEN <<16>> ELSE <<(CeilDiv(len, 16) - 1) * 16, 16>>)   \* message blocks, then M_last
+\* drop empty phases: the managers skip them without re-selecting a lane
+NonEmpty(seq) == SelectSeq(seq, LAMBDA x : x > 0)
+PhasesOf(pf, len, aad) ==
+    CASE pf = "ccm" -> \* AES-CCM authentication (mb_mgr_aes_ccm_submit_flush_*.inc): B0 (+ encoded AAD, padded), then the whole
+                       \* message blocks, then the zero-padded partial block
+                       <<IF aad = 0 THEN 16 ELSE 16 + CeilDiv(aad + 2, 16) * 16>> \o NonEmpty(<<(len \div 16) * 16, IF len % 16 = 0 THEN 0 ELSE 16>>)
+      [] pf = "cmac" -> (IF len = 0 THEN <<16>> ELSE <<(CeilDiv(len, 16) - 1) * 16, 16>>)   \* message blocks, then M_last
       [] pf = "xcbc" -> (IF len <= 16 THEN <<0, 16>> ELSE <<(CeilDiv(len, 16) - 1) * 16, 16>>)
       [] OTHER -> <<len>>
 
 UEmpty(un) == IF U[un].fam = "hmac" THEN OH(U[un].L, U[un].blk)!EmptyLanes
               ELSE IF U[un].fam = "phased" THEN OP(U[un].L)!EmptyLanes
-              ELSE IF U[un].fam = "shamb" THEN OM(U[un].L, U[un].blk)!EmptyLanes ELSE OS(U[un].L)!EmptyLanes
-USubmit(un, st, j, len) ==
-    IF U[un].fam = "phased" THEN LET r == OP(U[un].L)!OSubmit(st, j, PhasesOf(U[un].pf, len)) IN [st |-> r.st, ret |-> r.ret]
+              ELSE IF U[un].fam = "shamb" THEN OM(U[un].L, U[un].blk)!EmptyLanes ELSE OS(U[un].L, U[un].blk)!EmptyLanes
+USubmit(un, st, j, len, aad) ==
+    IF U[un].fam = "phased" THEN LET r == OP(U[un].L)!OSubmit(st, j, PhasesOf(U[un].pf, len, aad)) IN [st |-> r.st, ret |-> r.ret]
     ELSE IF U[un].fam = "shamb" THEN LET r == OM(U[un].L, U[un].blk)!OSubmit(st, j, len) IN [st |-> r.st, ret |-> r.ret]
     ELSE IF U[un].fam = "hmac" THEN LET r == OH(U[un].L, U[un].blk)!OSubmit(st, j, len) IN [st |-> r.st, ret |-> r.ret]
-    ELSE LET r == OS(U[un].L)!OSubmit(st, j, len) IN [st |-> r.st, ret |-> r.ret]
+    ELSE LET r == OS(U[un].L, U[un].blk)!OSubmit(st, j, len) IN [st |-> r.st, ret |-> r.ret]
 UFlush(un, st) ==
     IF U[un].fam = "phased" THEN LET r == OP(U[un].L)!OFlush(st) IN [st |-> r.st, ret |-> r.ret]
     ELSE IF U[un].fam = "shamb" THEN LET r == OM(U[un].L, U[un].blk)!OFlush(st) IN [st |-> r.st, ret |-> r.ret]
     ELSE IF U[un].fam = "hmac" THEN LET r == OH(U[un].L, U[un].blk)!OFlush(st) IN [st |-> r.st, ret |-> r.ret]
-    ELSE LET r == OS(U[un].L)!OFlush(st) IN [st |-> r.st, ret |-> r.ret]
+    ELSE LET r == OS(U[un].L, U[un].blk)!OFlush(st) IN [st |-> r.st, ret |-> r.ret]
 UBusyJobs(un, st) == { st.jil[l] : l \in 0 .. U[un].L - 1 } \ {NOJ}
 
 EmptyMachine == [u |-> [un \in DOMAIN U |-> UEmpty(un)], cd |-> {}, ad |-> {}, failed |-> {}, log |-> <<>>]
@@ -79,7 +85,7 @@ SubCipher(info, ms, j) ==
     IF cu = "custom" THEN [ms |-> RunCustomC(info, ms, j), ret |-> j]
     ELSE IF cu = "sync"
     THEN [ms |-> [ms EXCEPT !.cd = @ \cup {j}, !.log = Logged(ms, <<"c", j, j>>)], ret |-> j]
-    ELSE LET r == USubmit(cu, ms.u[cu], j, info[j].len) IN
+    ELSE LET r == USubmit(cu, ms.u[cu], j, info[j].len, 0) IN
          [ms |-> [ms EXCEPT !.u[cu] = r.st,
                             !.cd = IF r.ret = NOJ THEN @ ELSE @ \cup {r.ret},
                             !.log = Logged(ms, <<"c", j, r.ret>>)],
@@ -90,7 +96,7 @@ SubHash(info, ms, j) ==
     IF hu = "custom" THEN [ms |-> RunCustomH(info, ms, j), ret |-> j]
     ELSE IF hu = "sync"
     THEN [ms |-> [ms EXCEPT !.ad = @ \cup {j}, !.log = Logged(ms, <<"h", j, j>>)], ret |-> j]
-    ELSE LET r == USubmit(hu, ms.u[hu], j, info[j].hlen) IN
+    ELSE LET r == USubmit(hu, ms.u[hu], j, info[j].hlen, IF "aad" \in DOMAIN info[j] THEN info[j].aad ELSE 0) IN
          [ms |-> [ms EXCEPT !.u[hu] = r.st,
                             !.ad = IF r.ret = NOJ THEN @ ELSE @ \cup {r.ret},
                             !.log = Logged(ms, <<"h", j, r.ret>>)],
